@@ -583,14 +583,8 @@ var rR10b = RuleRef{Name: "R10b", Doc: "the bytes handed to Node.Propose are a f
 var rR23 = RuleRef{Name: "R23", Doc: "single path into the state machine in cluster mode: the cluster connection handler reaches a command dispatcher only in the configuration-change (rconf) arm, every other command leaves through the proposal channel; executors are invoked only at the dispatcher sites; the apply loop is started by exactly one go statement", Run: func(c *C) {
 	var hc *ssa.Function
 	for _, h := range c.connHandlers() {
-		for _, b := range h.Blocks {
-			for _, in := range b.Instrs {
-				if snd, ok := in.(*ssa.Send); ok {
-					if strings.Contains(snd.Chan.Type().String(), "RaftProposal") {
-						hc = h
-					}
-				}
-			}
+		if sendsProposal(h) {
+			hc = h
 		}
 	}
 	if hc == nil {
@@ -608,7 +602,7 @@ var rR23 = RuleRef{Name: "R23", Doc: "single path into the state machine in clus
 			cf := callee(call)
 			isDisp := false
 			for _, d := range c.Facts.Dispatchers {
-				if cf != nil && d.Parent() == cf {
+				if cf != nil && (d.Parent() == cf || (firstParty(cf) && pkgRel(cf) == "server" && callsTransitively(cf, d.Parent(), 0))) {
 					isDisp = true
 				}
 			}
@@ -621,7 +615,7 @@ var rR23 = RuleRef{Name: "R23", Doc: "single path into the state machine in clus
 			for _, st := range states {
 				found := false
 				for f := range st {
-					if strings.HasPrefix(f, "T|cmp:") && strings.Contains(f, "rconf") {
+					if strings.HasPrefix(f, "T|cmp:") && strings.Contains(f, "rconf") && strings.Contains(f, "==") {
 						found = true
 					}
 				}
